@@ -157,6 +157,24 @@ def gen_c01(rng):
                 for e in range(rng.randint(1, 3)):
                     name, params = one("c%do%de%d" % (ci, oi, e))
                     ents.append(["call", name.split(".") if "." in name else [name], params])
+                # siblings that are not calls of a returning callable: the calls next to them are judged all the same
+                while len(ents) < 5 and rng.random() < 0.35:
+                    tag = "c%do%ds%d" % (ci, oi, len(ents))
+                    sk = rng.random()
+                    if sk < 0.3:
+                        name, params = one(tag)
+                        sib = ["notify", name.split(".") if "." in name else [name], params]
+                    elif sk < 0.5:
+                        sib = ["notify", ["nope_" + tag], [gen_value(rng)]]
+                    elif sk < 0.7:
+                        methods["fail_" + tag] = {"kind": "fail"}
+                        sib = [rng.choice(["notify", "call"]), ["fail_" + tag], [gen_value(rng)]]
+                    elif sk < 0.85:
+                        methods["quit_" + tag] = {"kind": "exit"}
+                        sib = [rng.choice(["notify", "call"]), ["quit_" + tag], []]
+                    else:
+                        sib = ["call", ["nope_" + tag], []]
+                    ents.insert(rng.randrange(len(ents) + 1), sib)
                 ops.append(["batch", ents])
         clients.append({"version": rng.choice([None, 2.0, 1.0]), "history": rng.random() < 0.6, "ops": ops,
                         "use_jsonclass": sv["use_jsonclass"]})
@@ -220,11 +238,26 @@ def analyse_c01(program, s, run, verdict):
                     expected_calls[".".join(e[1])] = e[2]
                 continue
             res = o["out"][1]
-            if len(res) != len(op[1]):
-                v.append(Violation("C01", "return-value", "batch-length", "batch of %d calls produced %d results" % (len(op[1]), len(res))))
+            calls = [e for e in op[1] if e[0] == "call"]
+            if len(res) != len(calls):
+                v.append(Violation("C01", "return-value", "batch-length", "batch of %d calls produced %d results" % (len(calls), len(res))))
+                for e in op[1]:
+                    if ".".join(e[1]) in specs:
+                        expected_calls[".".join(e[1])] = e[2]
                 continue
-            for e, r in zip(op[1], res):
+            for e, r in zip(calls, res):
+                sp = specs.get(".".join(e[1]))
+                if sp is None or sp["kind"] in ("fail", "exit"):
+                    # a sibling that cannot return: its slot must hold an error, whatever it says
+                    if sp is not None:
+                        expected_calls[".".join(e[1])] = e[2]
+                    if r[0] != "error":
+                        v.append(Violation("C01", "return-value", "failing-sibling-returned", "batch entry %s produced %r" % (".".join(e[1]), r)))
+                    continue
                 check_one(o["ci"], o["oi"], e[1], e[2], r, "batch entry")
+            for e in op[1]:
+                if e[0] == "notify" and ".".join(e[1]) in specs:
+                    expected_calls[".".join(e[1])] = e[2]
     for name, params in sorted(expected_calls.items()):
         if specs.get(name, {}).get("kind") == "builtin":
             continue  # a built-in leaves no entry in the call log: judged by its value only
@@ -652,13 +685,14 @@ def gen_c13_first_use(rng):
 def gen_c13_small(rng):
     """Few short concurrent dispatcher threads: every pre-emption point is likely to be tried."""
     sv = {"kind": "dispatcher", "family": "tcp", "version": rng.choice([2.0, 2.0, 1.0]), "handlers": rng.random() < 0.3}
-    methods = {"echo": {"kind": "echo"}, "fail": {"kind": "fail"}, "sub": {"kind": "sub"}, "bad": {"kind": "baddump"}}
+    methods = {"echo": {"kind": "echo"}, "fail": {"kind": "fail"}, "sub": {"kind": "sub"}, "bad": {"kind": "baddump"},
+               "rej": {"kind": "subrejected"}}
     clients = []
     for ci in range(rng.randint(2, 3)):
         ops = []
         for oi in range(rng.randint(1, 2)):
             tok = "c%do%d" % (ci, oi)
-            m = rng.choice(["echo", "echo", "fail", "sub", "nope", "bad"])
+            m = rng.choice(["echo", "echo", "fail", "sub", "nope", "bad", "rej", "sub"])
             ops.append(["raw", rng.choice([
                 '{"method": "%s", "params": ["%s"], "id": "%s"}' % (m, tok, tok),
                 '{"method": "%s", "params": ["%s"], "id": "%s"}' % (m, tok, tok),
@@ -687,8 +721,8 @@ def gen_c13_full(rng):
         sv["custom_dispatch"] = "instance"
     methods = {"echo": {"kind": "echo"}, "fail": {"kind": "fail"}, "two": {"kind": "two"}, "fault": {"kind": "fault"},
                "slow": {"kind": "slow", "d": rng.choice([0.25, 0.5, 1.0])}, "sub": {"kind": "sub"}, "bad": {"kind": "baddump"},
-               "err": {"kind": "sharedfault"}}
-    names = ["echo", "echo", "fail", "nope", "two", "slow", "slow", "fault", "sub", "bad", "err"]
+               "err": {"kind": "sharedfault"}, "rej": {"kind": "subrejected"}}
+    names = ["echo", "echo", "fail", "nope", "two", "slow", "slow", "fault", "sub", "bad", "err", "rej", "sub"]
     sv["handlers"] = rng.random() < 0.4
     clients = []
     for ci in range(rng.randint(1, 4)):
